@@ -120,6 +120,10 @@ def useseg(name, body):
     return {"k": "useseg", "name": name, "body": body}
 
 
+def setpc(e):
+    return {"k": "setpc", "e": e}
+
+
 WNAME = {1: ".byte", 2: ".word"}
 
 
@@ -172,6 +176,8 @@ def render(prj):
                 out.append(pad + "}")
             elif k == "const":
                 out.append(pad + ".const " + st["name"] + " = " + render_expr(st["e"]))
+            elif k == "setpc":
+                out.append(pad + "* = " + render_expr(st["e"]))
             elif k == "data":
                 out.append(pad + WNAME[st["w"]] + " " + ", ".join(render_expr(e) for e in st["es"]))
             elif k == "loop":
@@ -287,6 +293,11 @@ def run_project(mos, d, text, timeout=10):
         so = e.stdout.decode() if isinstance(e.stdout, bytes) else (e.stdout or "")
         se = e.stderr.decode() if isinstance(e.stderr, bytes) else (e.stderr or "")
     obs = parse_output(so, se)
+    # a panic of the code under test is data: classify the message (text only, no verdict)
+    obs["panic"] = "none"
+    if "panicked at" in se:
+        obs["panic"] = ("slice" if "out of range for slice" in se else
+                        "overflow" if ("attempt to add with overflow" in se and "emulator_6502" in se) else "other")
     obs["exit"] = rc
     obs["hung"] = hung
     runs = [] if hung else parse_trace(tr)
@@ -528,12 +539,31 @@ class Gen:
                 kn["a"] = kn["z"] = kn["n"] = None
                 kn.get("mem", {}).pop(v, None)
             out.append(assert_(binop("==", pc(), ident(tgt)) if r.random() < 0.85 else binop("!=", pc(), ident(tgt)), msg()))
-        elif c < 0.88:
+        elif c < 0.86:
             # decimal flag set during an add/subtract: the property is silent from there (tier 2 mirrors the emulator)
             self.flags_known(out, kn, d=True)
             out += [insn(r.choice(["adc", "sbc"]), "imm", self.lit(r.choice([0x01, 0x09, 0x15, 0x99]))), insn("cld")]
             out.append(assert_(binop("<", ident("cpu.a"), num(256)), msg()))
             kn["a"] = kn["z"] = kn["n"] = kn["c"] = None
+        elif c < 0.93:
+            # the top of memory: install a vector at $fffa/$fffc/$fffe and read it back, including the very last byte
+            v = r.choice([0xfffe, 0xfffe, 0xfffc, 0xfffa])
+            lo, hi = r.randrange(256), r.randrange(256)
+            out += [insn("lda", "imm", self.lit(lo)), insn("sta", "dir", self.lit(v)),
+                    insn("lda", "imm", self.lit(hi)), insn("sta", "dir", self.lit(v + 1))]
+            kn["a"], kn["z"], kn["n"] = hi, hi == 0, hi >= 128
+            w = lo + 256 * hi
+            ok = r.random() < 0.85
+            out.append(assert_(binop("==", ram(self.lit(v), word=True), self.lit(w if ok else (w + 1) % 65536)), msg()))
+            if r.random() < 0.7:
+                out.append(assert_(binop("==" if r.random() < 0.85 else "!=", ram(self.lit(v + 1)), self.lit(hi)), msg()))
+            if v == 0xfffe and r.random() < 0.3:
+                out.append(assert_(binop("==", ram(num(0xffff, "hex")), binop("/", ram(num(0xfffe, "hex"), word=True), num(256))), msg()))
+        elif c < 0.96:
+            # a gap in the address space: jump over a `* =' (the skipped addresses read as BRK)
+            lab = self.fresh("gp")
+            out += [insn("jmp", "dir", ident(lab)), setpc(binop("+", pc(), num(r.choice([1, 3, 16, 200])))), label(lab)]
+            out.append(assert_(binop("==", pc(), ident(lab)) if r.random() < 0.85 else binop("<", pc(), num(0x100, "hex")), msg()))
         elif self.long_runs and "x" not in keep and "y" not in keep:
             # delay loops: hundreds to thousands of instructions before the next assertion
             big = self.long_runs > 1 and r.random() < 0.3
@@ -668,6 +698,8 @@ class Gen:
             s0 = r.choice([0x1000, 0x2000, 0x8000])
             segdefs = [{"name": "sa", "bank": "ba", "start": s0}, {"name": "sb", "bank": "bb", "start": s0},
                        {"name": "da", "bank": "ba", "start": 0x4000}, {"name": "db", "bank": "bb", "start": 0x4000}]
+            segdefs += [{"name": "va", "bank": "ba", "start": 0xfffa}, {"name": "vb", "bank": "bb", "start": 0xfffa}]
+            self.bank_vectors = {"sa": [r.randrange(0x100, 0xffff) for _ in range(3)], "sb": [r.randrange(0x100, 0xffff) for _ in range(3)]}
             where = ["sa", "sb"]
         items = []
         if r.random() < 0.5:
@@ -696,9 +728,28 @@ class Gen:
             if banked and r.random() < 0.8:
                 other = [m for k_, m in marks.items() if k_ != w][0]
                 body.append(assert_(binop("==", ram(num(0x4000, "hex")), num(marks[w][1] if r.random() < 0.8 else other[1])), None))
+            if banked and r.random() < 0.6:
+                # the bank's own interrupt vectors at $fffa-$ffff (the other bank holds different ones at the same addresses)
+                vw = self.bank_vectors[w]
+                i3 = r.randrange(3)
+                if r.random() < 0.5:
+                    body.append(assert_(binop("==" if r.random() < 0.85 else "!=", ram(num(0xfffa + 2 * i3, "hex"), word=True), self.lit(vw[i3])), None))
+                else:
+                    body.append(assert_(binop("==", ram(num(0xffff, "hex")), self.lit(vw[2] // 256 if r.random() < 0.85 else vw[2] % 256)), None))
             inside, outside = [], []
             for nm, sb, is_out in extra:
                 (outside if is_out else inside).append(sb)
+            # rare shapes with recorded findings: `* =' in front of the first instruction (the runner starts the cpu at the
+            # directive's address), ram16($ffff) (crash), an instruction touching $ffff (crash inside the emulator)
+            q = r.random()
+            if any(st.get("mn") == "sed" for st in body):
+                q = max(q, 0.04) if q >= 0.03 else q      # keep the crash shapes out of tests on which the spec is silent (decimal add)
+            if q < 0.03:
+                body = [setpc(binop("+", pc(), num(r.choice([2, 16, 256]))))] + body
+            elif q < 0.04 and ti == ntests - 1:
+                body.append(assert_(binop("==", ram(num(0xffff, "hex"), word=True), num(0)), None))
+            elif q < 0.05 and ti == ntests - 1:
+                body.append(insn("jmp", "ind", num(0xffff, "hex")))
             tail = [insn("brk")] if (r.random() < 0.9 or inside or self.vectors) else []
             tb = body + tail
             for vec, tgt in self.vectors:           # vectors of jmp (vec), behind the brk
@@ -719,4 +770,6 @@ class Gen:
         if banked:
             items.append(useseg("da", [data(1, [num(17)])]))
             items.append(useseg("db", [data(1, [num(34)])]))
+            items.append(useseg("va", [data(2, [num(x, "hex") for x in self.bank_vectors["sa"]])]))
+            items.append(useseg("vb", [data(2, [num(x, "hex") for x in self.bank_vectors["sb"]])]))
         return number({"segdefs": segdefs, "items": items})
